@@ -1,10 +1,12 @@
 (* Extraction of every executable Model and Spec entry point.  ExtrOcamlBasic only. *)
 From Coq Require Import Extraction ExtrOcamlBasic.
-From SA Require Import Base.Prelude Solr.MM Solr.MM_Spec Kernels.Intersect Kernels.Linear Kernels.Spec.
+From SA Require Import Base.Prelude Solr.MM Solr.MM_Spec Kernels.Intersect Kernels.Linear Kernels.Spec Codec.Codec Codec.Codec_Spec.
 Extraction "samodel.ml"
   mm_f64 solr_mm
   intersect_drop intersect_keep adjacent intersect_with_adjacents lowbit
   merge merge_drop sort_merge_counts unique binary_search galloping_search
   popcount64 popcount_reduce_at key_sum_over popcount64_reduce payload_slice as_dense
   intersect_drop_spec intersect_keep_spec adjacent_spec merge_spec merge_drop_spec unique_spec
-  search_spec popcount_reduce_at_spec key_sum_over_spec popcount64_reduce_spec as_dense_spec sort_merge_counts_spec mvals.
+  search_spec popcount_reduce_at_spec key_sum_over_spec popcount64_reduce_spec as_dense_spec sort_merge_counts_spec mvals
+  encode encode_b decode slice_keys slice_header slice_range num_values_per_key keys_unique
+  encode_spec group_by_key counts_spec keys_spec slice_spec boundaries_spec.
